@@ -330,3 +330,66 @@ def check_pending(sc):
     except Exception as e:
         out.append(('scenario:EXC:' + type(e).__name__, str(e)[:300]))
     return out
+
+
+# ================================================================================================ pickling across sessions
+def pickle_entity_case(pickled_status, change_between, preload_here):
+    """Entity instance A(name, n): pickle in session 1 (object loaded | modified | created | deleted), optionally change n in the
+    database in between, unpickle in session 2 (optionally after loading the object there). Returns ('ok', n seen after unpickling,
+    old n, new n) or ('err', exception class)."""
+    from pony import orm
+    db, A, B, C = make_db()
+    with orm.db_session:
+        A(name='x', n=5)
+    with orm.db_session:
+        if pickled_status == 'created': a = A(name='y', n=1)
+        else:
+            a = A[1]
+            if pickled_status == 'modified': a.n = 6
+            if pickled_status == 'deleted': a.delete()
+        try: blob = pickle.dumps(a)
+        except Exception as e:
+            orm.rollback(); return ('err', type(e).__name__)
+        orm.rollback()
+    new_n = 5
+    if change_between:
+        with orm.db_session: A[1].n = 77
+        new_n = 77
+    with orm.db_session:
+        if preload_here: assert A[1].n == new_n
+        a2 = pickle.loads(blob)
+        return ('ok', a2.n, 5, new_n, a2.name, isinstance(a2, A) and a2 is A[1])
+
+
+def pickle_set_case(kind, preload_here):
+    """SetInstance round trip. kind: 'o2m' (G.students), 'm2m_s' (S.courses), 'm2m_k' (K.students). Returns (ids before pickling,
+    ids after unpickling in another session, ids a fresh read in that session gives afterwards)."""
+    from pony import orm
+    db, G, S, K = make_db2()
+    with orm.db_session:
+        g = G(number=1); k1 = K(name='k1'); k2 = K(name='k2'); orm.flush()
+        S(name='s1', group=g, courses=[k1, k2]); orm.flush(); S(name='s2', group=g, courses=[k1])
+    pick = {'o2m': lambda: G[1].students, 'm2m_s': lambda: S[1].courses, 'm2m_k': lambda: K[1].students}[kind]
+    with orm.db_session:
+        w = pick()
+        before = sorted(x.id for x in w)
+        blob = pickle.dumps(w)
+    with orm.db_session:
+        if preload_here: assert sorted(x.id for x in pick()) == before
+        w2 = pickle.loads(blob)
+        after = sorted(x.id for x in w2)
+        fresh = sorted(x.id for x in pick())
+    return before, after, fresh
+
+
+def check_pickle_sets():
+    out = []
+    for kind in ('o2m', 'm2m_s', 'm2m_k'):
+        for preload in (False, True):
+            try:
+                before, after, fresh = pickle_set_case(kind, preload)
+            except Exception as e:
+                out.append(('pickle:set:EXC:' + type(e).__name__, {'kind': kind, 'preload': preload, 'error': str(e)[:200]})); continue
+            if after != before or fresh != before:
+                out.append(('pickle:set:wrong-items', {'kind': kind, 'preload': preload, 'before': before, 'after': after, 'fresh_read_in_that_session': fresh}))
+    return out
